@@ -87,10 +87,10 @@ def obligations(tier, seed):
                         if closing and n > (3 if q else 5):
                             continue
                         obs.append(Ob(PROP, 'runs', dict(n=n, act=act, inact=inact, closing=closing, include=include, ctx='root'),
-                                      budget=150 if q else 1200, bound=dict(items=n, timeouts='1..8 symbolic' if 'sym' in (act, inact) else None, timestamps='any non-decreasing ints')))
+                                      budget=400 if q else 1800, bound=dict(items=n, timeouts='1..8 symbolic' if 'sym' in (act, inact) else None, timestamps='any non-decreasing ints')))
     for closing, include in ((False, True), (True, True), (True, False)):
         for n in ((3,) if q else (3, 4)):
-            obs.append(Ob(PROP, 'runs', dict(n=n, act='sym', inact='sym', closing=closing, include=include, ctx='group'), budget=150 if q else 1200,
+            obs.append(Ob(PROP, 'runs', dict(n=n, act='sym', inact='sym', closing=closing, include=include, ctx='group'), budget=400 if q else 1800,
                           bound=dict(items=n, groups=2)))
     obs.append(Ob(PROP, 'runs', dict(n=3, act='sym', inact='sym', closing=True, include=True, ctx='root', _twin='reach'), budget=60, expect='refute'))
     return obs
